@@ -215,3 +215,57 @@ def h_writer(cj, scalars, rng, fixed):
                 env['self'] = w
                 f = getattr(w, meth)
                 yield env, (lambda f=f, vv=vv: f(**vv)), {'bits': bits, 'args': {k: (x.decode('latin-1') if isinstance(x, bytes) else x) for k, x in vv.items()}}
+
+
+# ---- functions / methods whose parameters are all scalars (ints, strings) -----------------------------
+
+STR_SEEDS = ['', ' ', '%', '%a', '%1.a', '%x.a', '%1.2.a', ' %length ', '%.a', '%-1.a', '% 1.a', '%1 .a', 'a', '.', '%1.',
+             '%+1.a', '%1_0.a', '%\u0661.a', '\t%edition\n', '%0.length', '%5.x']
+
+
+def str_neighbours(s, rng, extra=()):
+    out = [s, s.strip(), ' ' + s, s + ' ', s[:-1], s[1:], s + s]
+    for i in range(min(len(s), 6)):
+        out.append(s[:i] + s[i + 1:])
+    out.extend(extra)
+    seen = []
+    for x in out:
+        if x not in seen:
+            seen.append(x)
+    return seen
+
+
+@harness('pybufrkit.mdquery.MetadataExprParser.')
+def h_scalar_method(cj, scalars, rng, fixed):
+    f, is_method = resolve(cj['target'])
+    names = [n for n in cj['params'] if n != 'self']
+    parts = cj['target'].split('.')
+    import importlib
+    cls = getattr(importlib.import_module('.'.join(parts[:2])), parts[2]) if is_method else None
+    cands = []
+    if fixed:
+        cands.append(fixed)
+    base = {}
+    for n in names:
+        ty = cj['params'][n]
+        base[n] = scalars.get(n, {'int': 1, 'str': '', 'bool': True}.get(ty, 0))
+    cands.append(base)
+    for n in names:
+        if isinstance(base[n], str):
+            for x in str_neighbours(base[n], rng, STR_SEEDS):
+                d = dict(base)
+                d[n] = x
+                cands.append(d)
+        elif isinstance(base[n], int) and not isinstance(base[n], bool):
+            for x in around(base[n]):
+                d = dict(base)
+                d[n] = x
+                cands.append(d)
+    for env in cands:
+        e2 = dict(env)
+        if cls is not None:
+            obj = cls()
+            e2['self'] = obj
+            yield e2, (lambda obj=obj, env=env: getattr(obj, parts[-1])(**env)), env
+        else:
+            yield e2, (lambda env=env: f(**env)), env
